@@ -233,3 +233,15 @@ Example C17_ex_monitor_pass_rejects :
   /\ monitor_pass (ex_probes, [(Some (ex_object 2 1), ex_tbl, false)], 0%N, true) = false.
 Proof. exact ex_monitor_pass_rejects. Qed.
 Print Assumptions C17_ex_monitor_pass_rejects.
+
+(** A stale duplicate of the probed condition type that is separated from the current entry by an
+    entry of another type: both monitors reject an implementation that lets it pass, by reading the
+    staleness off the object (not via the model), and the model records the object as failed. *)
+Example C17_ex_separated_duplicate_rejected :
+  stale_selected dup_witness_probes sep_dup_object = true
+  /\ nth 3 (pass_clauses (dup_witness_probes, [(Some sep_dup_object, [], false)], 0%N, true)) true = false
+  /\ nth 5 (clauses (dup_witness_probes, sep_dup_object, [], ORun true [] [(true, [])] true)) true = false
+  /\ model_pass dup_witness_probes [(Some sep_dup_object, [])]
+     = Some (dup_witness_probes, [(Some sep_dup_object, [], true)], 1%N, false).
+Proof. exact ex_separated_duplicate_rejected. Qed.
+Print Assumptions C17_ex_separated_duplicate_rejected.
